@@ -28,7 +28,7 @@ ASSUMPTIONS = ["a thread switch inside a single C call (deque.append, dict get/s
                "per-consumer order only: cross-consumer receive order is not observable without perturbing the schedule"]
 REQUIRED_PROBES = ["switch_inside_transport", "two_publishers_same_fresh_channel", "wildcard_subscription", "callback_mode",
                    "subscription_closed_early", "subscription_closed_by_other_task",
-                   "transport_closed_and_reconnected"]
+                   "transport_closed_and_reconnected", "callback_raised_in_runner_thread", "deep_backlog_before_first_consumer"]
 CONFIG = {
     "quick": {"runs": 60000, "budget_s": 240, "timeout_s": 20, "per_fork": 25},
     "thorough": {"runs": 3000000, "budget_s": 1500, "timeout_s": 20, "per_fork": 50},
@@ -38,6 +38,10 @@ TARGETS = ("execution/transport/in_memory.py", "execution/transport/base.py")
 CHANNELS = ["jobs.a.cfg", "jobs.b.cfg", "jobs.a.status", "data.x", "data.y",
             "retry.jobs.a.cfg", "xdata.x", "jobs.a.cfg.bak"]        # names that contain other names / patterns as a suffix or prefix
 PATTERNS = ["*", "jobs.*", "jobs.*.cfg", "jobs.a.*", "data.?", "jobs.a.cfg", "data.x", "data.[xy]", "jobs.?.cfg", "jobs.[ab].status"]
+
+
+class CallbackBoom(Exception):
+    """Raised by a simulated user's callback (callback-mode subscription)."""
 
 
 def generate(rng: random.Random, tier: str, seed: int) -> dict:
@@ -62,8 +66,11 @@ def generate(rng: random.Random, tier: str, seed: int) -> dict:
         subs.append({"pattern": rng.choice(PATTERNS), "rounds": rng.randint(1, 3), "callback": rng.random() < 0.2,
                      "pause": rng.choice([0.0, 0.0005, 0.003]),
                      "close_after": rng.choice([None, None, None, 1, 2]),    # close() the subscription after k messages
-                     "closer": rng.random() < 0.2})                            # ANOTHER task close()s the subscription at some point
+                     "closer": rng.random() < 0.2,                             # ANOTHER task close()s the subscription at some point
+                     "cb_raises_at": rng.choice([None, None, 1, 2])})         # callback mode: the user's callback raises on its k-th message
     return {"existing": existing, "pubs": pubs, "subs": subs, "strategy": rng.choice(threads.STRATEGIES),
+            # publishers far ahead of a late subscriber: a deep backlog on one channel before any consumer exists
+            "bulk": {"channel": rng.choice(CHANNELS), "n": rng.choice([600, 1100, 2200, 4500])} if rng.random() < 0.02 else None,
             "reconnect": rng.random() < 0.15,       # some task calls the documented no-ops close() / connect() on the shared transport
             "sched_seed": rng.getrandbits(48), "choices": None}
 
@@ -74,7 +81,9 @@ def execute(sc: dict, seed: int) -> dict:
 
     strat = dict(sc["strategy"])
     strat.setdefault("est_steps", 250)
-    sched = threads.Scheduler(sc["sched_seed"], targets=TARGETS, strategy=strat, choices=sc.get("choices"), max_steps=30000)
+    bulk = sc.get("bulk")
+    sched = threads.Scheduler(sc["sched_seed"], targets=TARGETS, strategy=strat, choices=sc.get("choices"),
+                              max_steps=30000 + (60 * bulk["n"] * (1 + len(sc["subs"])) if bulk else 0))
     stats: dict = {}
     published: list[list] = []
     received: dict[str, list] = {}
@@ -86,6 +95,13 @@ def execute(sc: dict, seed: int) -> dict:
         for ch in sc["existing"]:
             tr.publish(ch, data=["pre", ch, 0], context=ContextType())
             published.append(["pre", ch, 0])
+
+        if bulk:
+            for i in range(bulk["n"]):
+                item = ["bulk", bulk["channel"], i]
+                tr.publish(bulk["channel"], data=item, context=ContextType())
+                published.append(item)
+            stats["probe.deep_backlog_before_first_consumer"] = 1
 
         def publisher(pid: int, chans: list[str]):
             def run():
@@ -108,6 +124,10 @@ def execute(sc: dict, seed: int) -> dict:
                 sched.log("receive", who, msg.data)
                 if not fnmatch.fnmatch(msg.data[1], spec["pattern"]):
                     bad_pattern.append((who, spec["pattern"], msg.data))
+                if who != name and spec.get("cb_raises_at") is not None and len(received[who]) == spec["cb_raises_at"]:
+                    # the message HAS been handed to this consumer; the consumer's own code then fails (its runner thread dies)
+                    sched.probe("callback_raised")
+                    raise CallbackBoom(f"user callback of {who} failed on {msg.data}")
 
             def run():
                 for r in range(spec["rounds"]):
@@ -164,6 +184,8 @@ def execute(sc: dict, seed: int) -> dict:
     if outcome != "completed":
         viols.append(oracles.V("scheduler", f"{outcome}", f"simulation ended with {outcome}; events tail {sched.events[-5:]}"))
     for name, e in sched.task_errors:
+        if isinstance(e, CallbackBoom):
+            continue        # the injected failure of the user's own callback, ending its runner thread
         viols.append(oracles.V("task_error", type(e).__name__, f"task {name} raised {type(e).__name__}: {e}"))
     if outcome == "completed":
         key = lambda it: json.dumps(it)  # noqa: E731
@@ -180,9 +202,9 @@ def execute(sc: dict, seed: int) -> dict:
         if lost:
             fresh = [c for c in {json.loads(k)[1] for k in lost} if c not in sc["existing"]]
             viols.append(oracles.V("exactly_once", "lost:fresh_channel" if fresh else "lost:existing_channel",
-                                   f"published but never delivered: {lost}"))
+                                   f"published but never delivered ({len(lost)}): {lost[:6]}"))
         if dup:
-            viols.append(oracles.V("exactly_once", "duplicated", f"delivered more often than published: {dup}"))
+            viols.append(oracles.V("exactly_once", "duplicated", f"delivered more often than published ({len(dup)}): {dup[:6]}"))
         # "messages of one channel published by one thread are received in publication order"
         for who, items in received.items():
             last: dict[tuple, int] = {}
@@ -211,6 +233,9 @@ def execute(sc: dict, seed: int) -> dict:
         stats["probe.wildcard_subscription"] = 1
     if any(s["callback"] for s in sc["subs"]):
         stats["probe.callback_mode"] = 1
+    if sched.probes.get("callback_raised"):
+        stats["probe.callback_raised_in_runner_thread"] = 1
+        stats["fault.consumer_callback_exception"] = sched.probes["callback_raised"]
     if sched.probes.get("transport_closed_and_reconnected"):
         stats["probe.transport_closed_and_reconnected"] = 1
     if sched.probes.get("closed_by_other_task"):
@@ -264,8 +289,12 @@ def _structural_candidates(sc: dict):
         yield dict(sc, existing=[])
     if sc.get("reconnect"):
         yield dict(sc, reconnect=False)
+    if sc.get("bulk"):
+        yield dict(sc, bulk=None)
+        if sc["bulk"]["n"] > 600:
+            yield dict(sc, bulk=dict(sc["bulk"], n=sc["bulk"]["n"] // 2))
     for i, s in enumerate(sc["subs"]):
-        if s["rounds"] > 1 or s["callback"] or s["pause"] or s.get("close_after") or s.get("closer"):
-            yield dict(sc, subs=sc["subs"][:i] + [dict(s, rounds=1, callback=False, pause=0.0, close_after=None, closer=False)] + sc["subs"][i + 1:])
+        if s["rounds"] > 1 or s["callback"] or s["pause"] or s.get("close_after") or s.get("closer") or s.get("cb_raises_at"):
+            yield dict(sc, subs=sc["subs"][:i] + [dict(s, rounds=1, callback=False, pause=0.0, close_after=None, closer=False, cb_raises_at=None)] + sc["subs"][i + 1:])
     if sc["strategy"].get("kind") != "pct" or sc["strategy"].get("d", 0) > 1:
         yield dict(sc, strategy={"kind": "pct", "d": 1})
